@@ -13,6 +13,7 @@
 // Rasters are synthetic, written by oracle/ref_geoidfile.hpp under /dev/shm/<pid>/ (removed at exit).
 #include <GeographicLib/Geoid.hpp>
 #include <memory>
+#include <new>
 #include "harness/common.hpp"
 #include "oracle/ref_geoidfile.hpp"
 #include "oracle/ref_geoid.hpp"
@@ -24,6 +25,28 @@ typedef long double LD;
 static const double NaN = std::numeric_limits<double>::quiet_NaN();
 static const double INF = std::numeric_limits<double>::infinity();
 static const double U = 0x1p-53;                    // unit round-off of double
+
+// ------------------------------------------------------------------------------------ allocation failpoint
+// Global operator new replaced by malloc (+ failpoint): when armed with k > 0 the k-th allocation from now throws
+// std::bad_alloc, once.  Armed only around a CacheArea/CacheAll call of a history ("allocation fault" operation).
+// malloc/free stay intercepted by ASan, so heap checking is unaffected (same scheme as fuzz/C13_newlimit.hpp).
+static long g_fail_countdown = 0;             // 0 = disarmed
+static unsigned long g_fail_fired = 0;
+void* operator new(std::size_t n) {
+  if (g_fail_countdown > 0 && --g_fail_countdown == 0) { ++g_fail_fired; throw std::bad_alloc(); }
+  void* p = std::malloc(n ? n : 1);
+  if (!p) throw std::bad_alloc();
+  return p;
+}
+void* operator new[](std::size_t n) { return operator new(n); }
+void* operator new(std::size_t n, const std::nothrow_t&) noexcept { return std::malloc(n ? n : 1); }
+void* operator new[](std::size_t n, const std::nothrow_t&) noexcept { return std::malloc(n ? n : 1); }
+void operator delete(void* p) noexcept { std::free(p); }
+void operator delete[](void* p) noexcept { std::free(p); }
+void operator delete(void* p, std::size_t) noexcept { std::free(p); }
+void operator delete[](void* p, std::size_t) noexcept { std::free(p); }
+void operator delete(void* p, const std::nothrow_t&) noexcept { std::free(p); }
+void operator delete[](void* p, const std::nothrow_t&) noexcept { std::free(p); }
 
 static refgeoid::TmpDir* g_dir = nullptr;
 static inline uint64_t bits_of(double v) { uint64_t u; std::memcpy(&u, &v, 8); return u; }
@@ -136,7 +159,7 @@ struct Geo {
 enum Kind { K_HEIGHT, K_G2E, K_E2G, K_NONE };
 struct Query { double lat, lon; int kind; double hh; const char* mode; };
 enum OpType { OP_QUERY, OP_AREA, OP_ALL, OP_CLEAR };
-struct Op { int type; int qi; double s, w, n, e; };
+struct Op { int type; int qi; double s, w, n, e; int failk = 0; };   // failk > 0: the failk-th allocation inside the cache call throws bad_alloc
 
 static double rand_lonrep(Rng& g, double lon) {        // another representation of the same meridian (not nec. exact)
   switch (g.below(6)) { case 0: return lon > 180 ? lon - 360 : lon; case 1: return lon < 0 ? lon + 360 : lon; default: return lon; }
@@ -268,6 +291,7 @@ static void gen_segment(Rng& g, const Geo& G, const Rect& cur, std::vector<Query
 
 static Op gen_cache_op(Rng& g, const Geo& G, const std::vector<Query>& Q, size_t near_q, Rect& cur, Ctx* c) {
   Op o; o.qi = -1; o.s = o.w = o.n = o.e = 0;
+  const bool was_active = cur.active;
   double u = g.u();
   if (u < 0.15) { o.type = OP_ALL; cur.active = true; cur.all = true; }
   else if (u < 0.33) { o.type = OP_CLEAR; cur.active = false; cur.all = false; }
@@ -276,6 +300,12 @@ static Op gen_cache_op(Rng& g, const Geo& G, const std::vector<Query>& Q, size_t
     gen_rect(g, G, Q, near_q, o.s, o.w, o.n, o.e, kind);
     if (c) c->event(std::string("CacheArea rectangle kind: ") + kind);
     if (o.s > o.n) { cur.active = false; cur.all = false; } else { cur.active = true; cur.all = false; cur.s = o.s; cur.w = o.w; cur.n = o.n; cur.e = o.e; }
+  }
+  // allocation fault: the call is expected to end in GeographicErr and leave NO cache (most valuable right after a successful cache)
+  if (o.type != OP_CLEAR && !(o.type == OP_AREA && o.s > o.n) && g.coin(was_active ? 0.30 : 0.08)) {
+    o.failk = g.coin(0.7) ? 1 + (int)g.below(3) : 1 + (int)g.below(40);
+    cur.active = false; cur.all = false;          // (if the fault does not fire because the call allocates less, the cache is simply on: labels come from the object)
+    if (c) c->event("history operation planted: CacheArea/CacheAll with allocation fault");
   }
   return o;
 }
@@ -369,8 +399,22 @@ static bool run_ops(Ctx& c, const Geoid& g, const std::vector<Op>& ops, const st
         X.val[o.qi] = do_query(g, q); X.lab[o.qi] = lab;
         if (fin) { lx = ix; ly = iy; }
       } else {
-        if (o.type == OP_AREA) g.CacheArea(o.s, o.w, o.n, o.e); else if (o.type == OP_ALL) g.CacheAll(); else g.CacheClear();
-        check_cache_law(c, g, o, R, cubic);
+        const char* ip = cubic ? "cubic" : "bilinear";
+        const bool had_cache = g.Cache(); const unsigned long fired0 = g_fail_fired; bool failed = false;
+        if (o.failk > 0 && o.type != OP_CLEAR) g_fail_countdown = o.failk;
+        try { if (o.type == OP_AREA) g.CacheArea(o.s, o.w, o.n, o.e); else if (o.type == OP_ALL) g.CacheAll(); else g.CacheClear(); g_fail_countdown = 0; }
+        catch (const GeographicErr&) { g_fail_countdown = 0; if (g_fail_fired == fired0) throw; failed = true; }
+        catch (const std::exception& e) { g_fail_countdown = 0;
+          c.viol(std::string("history:C20/") + ip + "/allocation-failure-in-cache-call-not-reported-as-GeographicErr", "history", J(R.j()).str("object", who).i("optype", o.type).i("failk", o.failk).str("what", e.what()).str("type", typeid(e).name()));
+          return false; }
+        if (failed) {     // documented: "in this case, you will have no cache"
+          c.event(std::string("allocation fault in CacheArea/CacheAll -> GeographicErr: ") + ip + (had_cache ? " (a cache was active before)" : " (no cache before)"));
+          if (g.Cache()) c.viol(std::string("law:C20/") + ip + "/cache-still-on-after-failed-CacheArea", "cache-law",
+                                J(R.j()).str("object", who).i("optype", o.type).i("failk", o.failk).f("s", o.s).f("w", o.w).f("n", o.n).f("e", o.e).b("had_cache", had_cache));
+        } else {
+          if (o.failk > 0) c.event("planted allocation fault did not fire (call made fewer allocations)");
+          check_cache_law(c, g, o, R, cubic);
+        }
       }
     } catch (const GeographicErr& e) {
       c.viol(std::string("history:C20/") + (cubic ? "cubic" : "bilinear") + "/unexpected-GeographicErr-on-valid-file", "history",
@@ -452,11 +496,11 @@ static std::string ops_context(const std::vector<Op>& ops, const std::vector<Que
   // the operations of history A that precede query qi (last 6), for the witness
   std::string s; size_t pos = 0;
   for (size_t k = 0; k < ops.size(); ++k) if (ops[k].type == OP_QUERY && ops[k].qi == qi) { pos = k; break; }
-  for (size_t k = pos >= 6 ? pos - 6 : 0; k <= pos && k < ops.size(); ++k) {
-    const Op& o = ops[k]; char b[200];
-    if (o.type == OP_QUERY) std::snprintf(b, sizeof b, "q%d(%.17g,%.17g,k%d) ", o.qi, Q[o.qi].lat, Q[o.qi].lon, Q[o.qi].kind);
-    else if (o.type == OP_AREA) std::snprintf(b, sizeof b, "CacheArea(%.17g,%.17g,%.17g,%.17g) ", o.s, o.w, o.n, o.e);
-    else std::snprintf(b, sizeof b, "%s ", o.type == OP_ALL ? "CacheAll" : "CacheClear");
+  for (size_t k = pos >= 80 ? pos - 80 : 0; k <= pos && k < ops.size(); ++k) {     // cache operations of the last 80 ops, and the last 4 queries
+    const Op& o = ops[k]; char b[240];
+    if (o.type == OP_QUERY) { if (k + 3 < pos) continue; std::snprintf(b, sizeof b, "q%d(%.17g,%.17g,k%d) ", o.qi, Q[o.qi].lat, Q[o.qi].lon, Q[o.qi].kind); }
+    else if (o.type == OP_AREA) std::snprintf(b, sizeof b, "CacheArea(%.17g,%.17g,%.17g,%.17g)%s ", o.s, o.w, o.n, o.e, o.failk ? (" [bad_alloc at allocation " + std::to_string(o.failk) + "]").c_str() : "");
+    else std::snprintf(b, sizeof b, "%s%s ", o.type == OP_ALL ? "CacheAll" : "CacheClear", o.failk ? (" [bad_alloc at allocation " + std::to_string(o.failk) + "]").c_str() : "");
     s += b;
   }
   return s;
